@@ -255,7 +255,11 @@ func visitInstr(fr *frame, instr ssa.Instruction) continuation {
 		fr.get(instr.Chan).(chan value) <- fr.get(instr.X)
 
 	case *ssa.Store:
-		store(mustDeref(instr.Addr.Type()), fr.get(instr.Addr).(*value), fr.get(instr.Val))
+		addr := fr.get(instr.Addr).(*value)
+		if cur != nil && cur.freezeOn {
+			cur.checkSharedWrite(fr, addr, "store")
+		}
+		store(mustDeref(instr.Addr.Type()), addr, fr.get(instr.Val))
 
 	case *ssa.If:
 		succ := 1
@@ -339,7 +343,11 @@ func visitInstr(fr *frame, instr ssa.Instruction) continuation {
 		fr.env[instr] = fr.get(instr.Iter).(iter).next()
 
 	case *ssa.FieldAddr:
-		fr.env[instr] = &(*fr.get(instr.X).(*value)).(structure)[instr.Field]
+		base := fr.get(instr.X).(*value)
+		if cur != nil && cur.freezeOn && cur.pooledObjs[base] {
+			cur.monitorViolation(fr, "C08:object-used-after-it-was-returned-to-the-pool")
+		}
+		fr.env[instr] = &(*base).(structure)[instr.Field]
 
 	case *ssa.Field:
 		fr.env[instr] = fr.get(instr.X).(structure)[instr.Field]
@@ -391,6 +399,9 @@ func visitInstr(fr *frame, instr ssa.Instruction) continuation {
 		m := fr.get(instr.Map)
 		key := fr.get(instr.Key)
 		v := fr.get(instr.Value)
+		if cur != nil && cur.freezeOn {
+			cur.checkSharedMap(fr, m)
+		}
 		switch m := m.(type) {
 		case map[value]value:
 			m[key] = v
